@@ -37,17 +37,20 @@ FINDINGS = {
     2: 'C19-path-kept-on-exception',
     4: 'C19-profile-unusable',
     16: 'C19-interval-timer-leak',
+    8: 'C19-autoprofile-leaves-profiler-enabled',      # status: known (not repaired)
 }
 BITNAMES = {1: 'sys.argv', 2: 'sys.path', 4: 'profile decorator', 8: 'profiler left enabled', 16: 'helper thread'}
 
 
 # ---- generated programs -------------------------------------------------------------------------
-def prog_name(outcome, tp, ta, explicit):
-    return 'prog_%s_%d%d%d' % (outcome, tp, ta, explicit)
+def prog_name(outcome, tp, ta, explicit, imp=0):
+    return 'prog_%s_%d%d%d%d' % (outcome, tp, ta, explicit, imp)
 
 
-def prog_text(outcome, tp, ta, explicit):
+def prog_text(outcome, tp, ta, explicit, imp=0):
     lines = ['import sys']
+    if imp:     # imports that a -p selection can match: auto-profiling registers them right here
+        lines += ['import json', 'from helper_mod import helper']
     if explicit:
         lines += ['from line_profiler import profile']
     else:
@@ -65,18 +68,26 @@ def prog_text(outcome, tp, ta, explicit):
 
 
 def all_files():
-    files = {'setupd/setup.py': 'SETUP_RAN = 1\n'}
+    files = {'setupd/setup.py': 'SETUP_RAN = 1\n', 'helper_mod.py': 'def helper(n):\n    return sum(range(n))\n'}
     for outcome in OUTCOMES:
-        for tp, ta, ex in itertools.product((0, 1), repeat=3):
-            nm = prog_name(outcome, tp, ta, ex) + '.py'
-            files[nm] = prog_text(outcome, tp, ta, ex)
-            files['sub/' + nm] = prog_text(outcome, tp, ta, ex)
+        for tp, ta, ex, imp in itertools.product((0, 1), repeat=4):
+            nm = prog_name(outcome, tp, ta, ex, imp) + '.py'
+            files[nm] = prog_text(outcome, tp, ta, ex, imp)
+            files['sub/' + nm] = prog_text(outcome, tp, ta, ex, imp)
     return files
 
 
 # ---- one run: kernprof arguments and the model's view of them ------------------------------------
-def make_run(l, b, m, setup, interval, where, extras, sargs, outcome, tp, ta, explicit):
-    name = prog_name(outcome, tp, ta, explicit)
+SELECTIONS = ['json', 'helper', 'both', 'script', 'nosuch']
+
+
+def make_run(l, b, m, setup, interval, where, extras, sargs, outcome, tp, ta, explicit, imp=0, sel=None):
+    """sel: what -p selects (needs -l): an imported module, an imported function's module, both, the script itself
+    (with --prof-imports: every import of the script is registered) or nothing that the program imports"""
+    if sel == 'script':
+        explicit = 0    # --prof-imports on a program doing `from line_profiler import profile` dies with AttributeError
+                        # (the registration statements then call the GlobalProfiler): auto-profiling's business, C08/C09
+    name = prog_name(outcome, tp, ta, explicit, imp)
     args = []
     if l:
         args.append('-l')
@@ -87,6 +98,15 @@ def make_run(l, b, m, setup, interval, where, extras, sargs, outcome, tp, ta, ex
     if interval is not None:
         args += ['-i', str(interval)]
     args += extras
+    if m and sel == 'script':
+        sel = 'both'
+    regs = 0
+    if sel:
+        path = dict(rel=name + '.py', sub='sub/' + name + '.py', abs='{TMP}/sub/' + name + '.py')[where]
+        args += dict(json=['-p', 'json'], helper=['-p', 'helper_mod'], both=['-p', 'json,helper_mod'],
+                     script=['-p', path, '--prof-imports'], nosuch=['-p', 'no_such_module'])[sel]
+        if l:   # registration statements executed (each ends in enable_by_count): C09's matching, restated
+            regs = dict(json=imp, helper=imp, both=2 * imp, script=1 + 2 * imp, nosuch=0)[sel]
     if m:
         script, sdir = name, ''
         args += ['-m', name]
@@ -97,7 +117,7 @@ def make_run(l, b, m, setup, interval, where, extras, sargs, outcome, tp, ta, ex
     args += sargs
     return dict(args=args, l=l, b=b, m=m, setup='setupd' if setup else None, interval=interval or 0,
                 new_argv=[script.replace('{TMP}', '/T')] + sargs, script_dir=sdir,
-                outcome=outcome, tp=bool(tp), ta=bool(ta), explicit=bool(explicit))
+                outcome=outcome, tp=bool(tp), ta=bool(ta), explicit=bool(explicit), imp=int(imp), sel=sel, regs=regs)
 
 
 EXTRAS = [[], ['-v'], ['-z'], ['-v', '-z', '-u', '1e-3'], ['-o', 'out.dat'], ['-v', '-r']]
@@ -108,12 +128,13 @@ def random_run(rnd, allow_p=True):
     outcome = rnd.choice(OUTCOMES)
     explicit = rnd.random() < 0.4 and (l or b)     # see `assumptions`: explicit decorator under plain cProfile mode is C03's
     extras = list(rnd.choice(EXTRAS))
-    name = prog_name(outcome, 0, 0, 0)
-    if l and allow_p and rnd.random() < 0.25:
-        extras += ['-p', 'work'] if rnd.random() < 0.5 else ['--prof-mod', 'json', '--prof-imports']
+    sel = None
+    if allow_p and rnd.random() < 0.3:
+        sel = rnd.choice(SELECTIONS)        # without -l the option is accepted and ignored
     return make_run(l, b, m, rnd.random() < 0.3, rnd.choice([None, None, None, 0, 2, 5, 30]),
                     rnd.choice(['rel', 'rel', 'sub', 'abs']), extras, rnd.choice([[], [], ['a'], ['a', '--flag', 'x y']]),
-                    outcome, int(rnd.random() < 0.3), int(rnd.random() < 0.3), int(explicit))
+                    outcome, int(rnd.random() < 0.3), int(rnd.random() < 0.3), int(explicit),
+                    imp=int(rnd.random() < 0.6), sel=sel)
 
 
 def gen_cases(tier, rnd):
@@ -127,6 +148,19 @@ def gen_cases(tier, rnd):
                 continue        # without a profile decorator in scope `excin` is the same program as `exc`
             r = make_run(l, b, m, setup, 3 if timed else None, 'rel', [], ['a'], outcome, 0, 0, 0)
             cases.append(dict(kind='single', init=init0, runs=[r]))
+    # 1b. auto-profiling selections (-l -p ...): every selection kind x with/without matching imports x outcome x -m
+    for sel in SELECTIONS:
+        for imp in (0, 1):
+            for outcome in OUTCOMES:
+                for m in (False, True):
+                    r = make_run(True, False, m, False, None, 'rel', [], [], outcome, 0, 0, 0, imp=imp, sel=sel)
+                    cases.append(dict(kind='autoprofile', init=init0, runs=[r]))
+    # 1c. ... and what the leaked profiler does to the next run (each mode)
+    for l2, b2 in ((True, False), (False, True), (False, False)):
+        for sel2 in (None, 'helper'):
+            r1 = make_run(True, False, False, False, None, 'rel', [], [], 'ret', 0, 0, 0, imp=1, sel='helper')
+            r2 = make_run(l2, b2, False, False, None, 'sub', [], [], 'ret', 1, 1, 0, imp=1, sel=sel2)
+            cases.append(dict(kind='autoprofile', init=init0, runs=[r1, r2]))
     # 2. program behaviours and irrelevant options, single run
     for _ in range(1500 if thorough else 60):
         init = dict(init0, argv=rnd.choice([['driver'], ['driver', 'x', 'y'], ['']]),
@@ -148,7 +182,7 @@ def gen_cases(tier, rnd):
                 r['pre_use'] = uses[k - 1] if k else []
             cases.append(dict(kind='interleaved-use', init=init0, runs=rs))
     for _ in range(600 if thorough else 40):
-        rs = [random_run(rnd) for _ in range(rnd.choice([2, 3]))]
+        rs = [random_run(rnd, allow_p=False) for _ in range(rnd.choice([2, 3]))]      # (a leaked profiler would make the uses fail)
         for r in rs:
             r['pre_use'] = list(rnd.choice(uses + [[], []]))
         cases.append(dict(kind='interleaved-use', init=dict(init0, profile=rnd.choice(['undecided', 'disabled'])), runs=rs))
@@ -304,6 +338,9 @@ def classify(case, o, bit):
     if bit == 4:
         if final['enabled'] is True and final['profile'] is None and o['use'] == 2:
             return FINDINGS[4]
+    if bit == 8:
+        if last['l'] and last.get('regs', 0) > 0 and not o['before']['tracing'] and final['tracing'] and not final['threads']:
+            return FINDINGS[8]
     if bit == 16:
         n = sum(1 for r in case['runs'] if r['interval'] > 0)
         if n > 0 and final['threads'] - o['before']['threads'] == n and final['thread_kinds'] == ['Timer']:
@@ -323,7 +360,7 @@ def why_text(case, o, bit):
         return 'line_profiler.profile was (enabled=%r, _profile=%r) before kernprof.main, is (enabled=%r, _profile=%r) after; ordinary use afterwards: %s' % (
             before['enabled'], before['profile'], final['enabled'], final['profile'], after)
     if bit == 8:
-        return 'a profiler / trace hook is still installed after kernprof.main'
+        return 'a profiler / trace hook is still installed after kernprof.main(%s)' % ' '.join(case['runs'][-1]['args'])
     if bit == 16:
         return '%d helper thread(s) still alive after kernprof.main: %r' % (final['threads'] - before['threads'], final['thread_kinds'])
     return '?'
@@ -353,11 +390,11 @@ def q_gp(init):
 
 
 def q_run(r):
-    return '(mkOpts %s %s %s %s %s %s %s "/T") (mkProg %s %s %s %s [])' % (
+    return '(mkOpts %s %s %s %s %s %s %s "/T") (mkProg %s %s %s %s %s [])' % (
         core.coq_bool(r['l']), core.coq_bool(r['b']), core.coq_bool(r['m']),
         core.coq_opt(core.coq_str(r['setup']) if r['setup'] else None), core.coq_z(r['interval']),
         q_strs(r['new_argv']), core.coq_str(r['script_dir']),
-        COQ_OUTCOME[r['outcome']], core.coq_bool(r['tp']), core.coq_bool(r['ta']), core.coq_bool(not r['explicit']))
+        COQ_OUTCOME[r['outcome']], core.coq_bool(r['tp']), core.coq_bool(r['ta']), core.coq_bool(not r['explicit']), core.coq_z(r.get('regs', 0)))
     # p_sched = []: in these runs the program ends long before the first expiry (N >= 2 s); the
     # interleavings of stop() with a dump are exercised on the RepeatedTimer directly (RT_SCHEDULES)
 
@@ -550,7 +587,7 @@ def run(tier, seed):
                  'initial state and the kernprof argument lists of its runs.  Complete enumeration of the 32 effect-relevant option sets '
                  '(-l, -b, -m, -s, -i N) x 5 program outcomes (return, sys.exit, KeyboardInterrupt, raise at top level, raise inside a '
                  'profiled function) as single runs, all ordered pairs of 6 core behaviours, plus seeded random runs / sequences of 2-3 runs '
-                 'with irrelevant options (-v -z -r -u -o -p --prof-imports), program edits of sys.path / sys.argv, script given relative / in a '
+                 'with irrelevant options (-v -z -r -u -o), all kinds of -p selections with and without matching imports (and --prof-imports), program edits of sys.path / sys.argv, script given relative / in a '
                  'subdirectory / absolute, decided and undecided initial decorator; plus the real kernprof.RepeatedTimer driven through '
                  'deterministic schedules of expiry / dump completion / stop() (a blocking dump function places stop() inside a dump)',
             exhaustive=True, case_kinds=kinds, runs_per_case=lens, run_stats=stats, outcomes=outcomes,
